@@ -1,8 +1,9 @@
 import MesaModel.Proofs.CellSymm
+import MesaModel.Proofs.CellDicts
 /-!
 # C07 — connections and neighbourhoods of cell spaces are exactly the geometry's
 
-Property theorems only (models: `Model/CellGeometry.lean`; helper lemmas: `Proofs/Cell{Offsets,Connect,Grid,Symm,Nbhd}.lean`;
+Property theorems only (models: `Model/CellGeometry.lean`; helper lemmas: `Proofs/Cell{Offsets,Connect,Grid,Symm,Nbhd,Edit,Dicts}.lean`;
 generated constants: `Gen/CellTables.lean`, rewritten from grid.py / cell_agent.py on every check).
 
 Reading guide: `gridConn k dims torus c` is `Cell.connections` of cell `c` (a list of (offset, cell));
@@ -165,6 +166,57 @@ theorem C07_cache_transparent_from {α : Type} [DecidableEq α] (nb : α → Lis
   | get c r ic => exact (getNbhd_spec nb r ic c cs h).2
   | prop c => exact (nbProp_spec nb c cs h).2
 
+/-- `Cell.connections` is a dict in the model too: in every grid (any kind, dimension vector, torus flag), every
+    `Network` and every `VoronoiGrid` no key occurs twice among a cell's connections, so "the cell under key k"
+    (`connections.get(k)`, what `move_relative` follows) and the listed items say the same. -/
+theorem C07_connections_are_dicts :
+    (∀ k dims torus c, KeysNodup (gridConn k dims torus c)) ∧
+    (∀ directed edges c, KeysNodup (netConn directed edges c)) ∧
+    (∀ tris c, KeysNodup (vorConn tris c)) :=
+  ⟨gridConn_keysNodup, netConn_keysNodup, vorConn_keysNodup⟩
+
+/-- `Cell.connect(other, key)` and `Cell.disconnect(other)` after construction, on any connection structure:
+    `connect` is the dict assignment `connections[key] = other` on that one cell (the lookup of `key` now gives
+    `other`, every other lookup is unchanged; on a dict: the items are the old ones with `key` re-bound or added),
+    `disconnect` deletes exactly the items leading to `other`; both leave every other cell's connections alone
+    and keep the dict a dict; afterwards `other` is / is not among the cell's neighbours. -/
+theorem C07_connect_disconnect_spec {α κ : Type} [DecidableEq α] [DecidableEq κ] (conn : α → List (κ × α))
+    (c other : α) (key : κ) :
+    (∀ k', assocGet (connectConn conn c other key c) k' = if key = k' then some other else assocGet (conn c) k') ∧
+    (∀ x, x ≠ c → connectConn conn c other key x = conn x ∧ disconnectConn conn c other x = conn x) ∧
+    (∀ p, p ∈ disconnectConn conn c other c ↔ p ∈ conn c ∧ p.2 ≠ other) ∧
+    (KeysNodup (conn c) →
+      KeysNodup (connectConn conn c other key c) ∧ KeysNodup (disconnectConn conn c other c) ∧
+      (∀ k' v', (k', v') ∈ connectConn conn c other key c ↔ (k' = key ∧ v' = other) ∨ (k' ≠ key ∧ (k', v') ∈ conn c)) ∧
+      (∀ k', assocGet (disconnectConn conn c other c) k' =
+        (assocGet (conn c) k').bind fun v => if v = other then none else some v)) ∧
+    other ∈ nbOfConn (connectConn conn c other key) c ∧ other ∉ nbOfConn (disconnectConn conn c other) c := by
+  refine ⟨fun k' => ?_, fun x hx => ⟨connectConn_other conn c other key hx, disconnectConn_other conn c other hx⟩,
+    fun p => ?_, fun hk => ⟨?_, ?_, fun k' v' => ?_, fun k' => ?_⟩, ?_, ?_⟩
+  · rw [connectConn_same]; exact assocGet_dictSet _ _ _ _
+  · rw [disconnectConn_same]; exact mem_dictDropValue _ _ _
+  · rw [connectConn_same]; exact keysNodup_dictSet hk _ _
+  · rw [disconnectConn_same]; exact keysNodup_dictDropValue hk _
+  · rw [connectConn_same]; exact mem_dictSet hk _ _ _ _
+  · rw [disconnectConn_same]; exact assocGet_dictDropValue hk _ _
+  · simp only [nbOfConn, connectConn_same]
+    exact List.mem_map.mpr ⟨(key, other), dictSet_mem_self _ _ _, rfl⟩
+  · simp only [nbOfConn, disconnectConn_same, List.mem_map, not_exists, not_and]
+    intro p hp
+    exact ((mem_dictDropValue _ _ _).mp hp).2
+
+/-- Memo tables stay transparent when connections are edited (repair SC2): for every connection structure and
+    every history of `get_neighborhood` / `neighborhood` queries *interleaved in any order with `connect` /
+    `disconnect` calls on any cells*, the answers the code gives — consulting the three memo tables, dropping
+    them (`_forget_neighborhoods`) at every edit — are the answers of the uncached function on the connections
+    as they are at the moment of the query (`C07_nbhd_spec`: exactly the cells within r hops of the *edited*
+    structure); from fresh tables and from any memo state a history can have produced. -/
+theorem C07_cache_transparent_under_edits {α κ : Type} [DecidableEq α] [DecidableEq κ] (conn : α → List (κ × α))
+    (acts : List (Act α κ)) :
+    runActs conn {} acts = specActs conn acts ∧
+    ∀ cs, CachesOK (nbOfConn conn) cs → runActs conn cs acts = specActs conn acts :=
+  ⟨runActs_spec conn {} (cachesOK_empty _) acts, fun cs h => runActs_spec conn cs h acts⟩
+
 /-! ### non-vacuity: the hypotheses are satisfiable and the statements bite -/
 
 -- a 1×3 Moore torus: cell (0,1) is connected to itself (S15) and to both others under several offsets
@@ -188,5 +240,16 @@ example : connectNd [2, 2] false [0, 0] [-1, 0] = none := by decide
 -- memo tables hit in both directions give the uncached answers
 example : runQueries (netAdj false [(0, 1), (1, 2)]) {} [.get 0 2 true, .prop 1, .get 0 2 false, .get 1 1 true, .get 0 2 true]
     = [[0, 2, 1], [0, 2], [2, 1], [0, 2, 1], [0, 2, 1]] := by decide
+-- SC2: on the path 0 - 1 - 2, cell 0 is asked, then connected to cell 2 (key [2]), then asked again: the second
+-- answers see the new connection, also at radius 2 from cell 1's side after a disconnect …
+private def path3 : List Int → List (Key × Coord) := netConn false [(0, 1), (1, 2)]
+example : runActs path3 {} [.ask (.get [0] 1 false), .ask (.prop [0]), .connect [0] [2] [2], .ask (.get [0] 1 false),
+      .ask (.prop [0]), .disconnect [1] [2], .ask (.get [0] 2 false), .ask (.get [1] 1 true)]
+    = [[[1]], [[1]], [[1], [2]], [[1], [2]], [[1], [2]], [[0], [1]]] := by decide
+-- … whereas keeping the memo table across the edit (the code before the repair) returns the stale answer
+example : (getNbhd (nbOfConn (connectConn path3 [0] [2] [2])) 1 false [0] (getNbhd (nbOfConn path3) 1 false [0] {}).2).1
+    ≠ nbhd (nbOfConn (connectConn path3 [0] [2] [2])) 1 false [0] := by decide
+example : KeysNodup (path3 [1]) ∧ assocGet (connectConn path3 [1] [0] [2] [1]) [2] = some [0] :=
+  ⟨netConn_keysNodup _ _ _, by decide⟩
 
 end Mesa.Cells
